@@ -125,6 +125,8 @@ func setHash(mode string, n int, seed uint64) {
 		simrt.SetHashMode(simrt.HashNative, 1, seed)
 	case "collide":
 		simrt.SetHashMode(simrt.HashCollide, n, seed)
+	case "split":
+		simrt.SetHashMode(simrt.HashSplit, n, seed)
 	default:
 		simrt.SetHashMode(simrt.HashDet, 1, seed)
 	}
